@@ -45,7 +45,7 @@ CLAUSES = {
 PARALLEL = True
 CASE_TIMEOUT = 120
 LEVEL_NOTE = ("exhaustive sub-domains: quick = every op sequence of length 3 over _CA / _EA (10 / 9 letters) and of length 4 "
-              "over _CA8 / _EA7; thorough = length 4 over _CA / _EA, length 5 over _CA8 / _EA7, length 6-7 over 5-6 letter sub-alphabets")
+              "over _CA8 / _EA7; thorough = length 4 over _CA / _EA, length 5 over _CA8 / _EA7, length 5-6 over 5-6 letter sub-alphabets")
 
 
 def _model_op(op):
@@ -257,10 +257,10 @@ def gen_cases(rng, tier):
         yield from _enum_cases("event", 4, _EA)
         yield from _enum_cases("cond", 5, _CA8)
         yield from _enum_cases("event", 5, _EA7)
-        yield from _enum_cases("cond", 7, ["waitT", "waitN", "n1", "fire", "raceN1"])
-        yield from _enum_cases("event", 7, ["waitT", "waitN", "set", "clear", "fire", "raceSet"][:5] )
-        yield from _enum_cases("event", 6, ["waitT", "set", "clear", "fire", "raceSet", "c0"])
-        n_rand = 60000
+        yield from _enum_cases("cond", 6, ["waitT", "waitN", "n1", "fire", "raceN1"])
+        yield from _enum_cases("event", 6, ["waitT", "waitN", "set", "clear", "fire"])
+        yield from _enum_cases("event", 5, ["waitT", "set", "clear", "fire", "raceSet", "c0"])
+        n_rand = 30000
     else:
         n_rand = 4000
     for _ in range(n_rand):
